@@ -144,7 +144,8 @@ func (te *tableEngine) openGame(oldTable *Table) (*Table, error) {
 
 func (te *tableEngine) startGame() error {
 	rule := te.table.Meta.Rule
-	blind := te.table.State.BlindState
+	// snapshot the blind level once: the hand and the published hand blinds must agree
+	blind := *te.table.State.BlindState
 
 	// create game options
 	opts := pokerface.NewStardardGameOptions()
